@@ -697,7 +697,8 @@ CFG_TINY_ITER = ("chol0_maxcg3", {"mc": 0, "max_cg": 3, "max_lq": 3, "cg_tol": "
 # (rhs kind, left kind) pairs of the full grid
 FULL_PAIRS = [(r, "none") for r in ("vec", "mat", "mat1", "batched", "bcast1", "fewer", "mixed1", "extra")] + [
     ("vec", "orth"), ("vec", "rect"), ("mat", "orth"), ("mat", "rect"), ("batched", "orth"), ("batched", "rect"), ("extra", "rect"),
-    ("bcast1", "rect"), ("batched", "lbc"), ("mat", "lfull")]
+    ("bcast1", "rect")]
+# (a left factor whose batch dimensions differ from the rhs' own is not part of the property statement: not enumerated)
 
 
 def _run_history(op, history, shapes, dt, zoo):
@@ -740,16 +741,8 @@ def _solve_checks(H, rec, c, label, make, D, kap, cfgname, cfg, pairs, tier, ent
             Lf = torch.linalg.qr(zoo.rn(g, *rb, N, N, dtype=f64))[0].to(dt)
         elif lk == "rect":
             Lf = zoo.rn(g, *rb, 2, N, dtype=dt)
-        elif lk == "lbc":  # left factor with fewer (broadcast) batch dimensions than the rhs
-            if not rb:
-                continue
-            Lf = zoo.rn(g, 2, N, dtype=dt)
-        elif lk == "lfull":  # left factor carries the operator's batch shape, the rhs does not
-            if not batch or rb:
-                continue
-            Lf = zoo.rn(g, *batch, 2, N, dtype=dt)
         lab = f"{label}|cfg={cfgname}|rhs={rk}|left={lk}" + (f"|hist={history}" if history else "") + (f"|via={entry}" if entry != "method" else "")
-        grp_exc = "solve_left_bcast/Solve.forward" if lk in ("lbc", "lfull") else f"solve/{c.name}"
+        grp_exc = f"solve/{c.name}" if lk == "none" else f"solve_left/{c.name}"
         op, _ = make()
         torch.manual_seed(1234)
         try:
@@ -776,13 +769,12 @@ def _solve_checks(H, rec, c, label, make, D, kap, cfgname, cfg, pairs, tier, ent
         if B.dim() == 1:
             Xe = Xe.squeeze(-1)
         ok_shape = torch.is_tensor(X) and tuple(X.shape) == tuple(Xe.shape)
-        sgrp = "solve_left_bcast/Solve.forward" if lk in ("lbc", "lfull") else f"solve_shape/{c.name}"
-        rec.check(sgrp, lab, ok_shape, f"shape {tuple(X.shape) if torch.is_tensor(X) else type(X)} expected {tuple(Xe.shape)}")
+        rec.check(f"solve_shape/{c.name}", lab, ok_shape, f"shape {tuple(X.shape) if torch.is_tensor(X) else type(X)} expected {tuple(Xe.shape)}")
         if not ok_shape:
             continue
         rec.check(f"solve_dtype/{c.name}", lab, X.dtype == dt, f"dtype {X.dtype} expected {dt}")
         if not bool(torch.isfinite(X).all()):
-            rec.check(f"solve/{c.name}", lab, False, "non-finite entries in the result")
+            rec.check(grp_exc, lab, False, "non-finite entries in the result")
             continue
         # ---- which algorithm ran -> tolerance
         lin32 = bool(cfg.get("linalg_f32"))
@@ -795,7 +787,7 @@ def _solve_checks(H, rec, c, label, make, D, kap, cfgname, cfg, pairs, tier, ent
             Xs = Xs.squeeze(-1) if B.dim() == 1 else Xs
         else:
             Xs = X
-        vgrp = f"solve/{c.name}" if lk == "none" else (f"solve_left/{c.name}" if lk in ("orth", "rect") else "solve_left_bcast/Solve.forward")
+        vgrp = f"solve/{c.name}" if lk == "none" else f"solve_left/{c.name}"
         if used_cg:
             tol = H.cg_tol(cfg, dt)
             floor = 2e-5 if dt == f64 else 2e-3
